@@ -2403,6 +2403,10 @@ namespace igris
 
         static_vector &operator=(const static_vector &other)
         {
+            if (this == &other)
+                return *this;
+
+            clear();
             m_size = other.m_size;
             for (igris::size_t pos = 0; pos < m_size; ++pos)
             {
@@ -2413,12 +2417,16 @@ namespace igris
 
         static_vector &operator=(static_vector &&other)
         {
+            if (this == &other)
+                return *this;
+
+            clear();
             m_size = other.m_size;
             for (igris::size_t pos = 0; pos < m_size; ++pos)
             {
                 new (&_data[pos]) T(igris::move(other[pos]));
             }
-            other.m_size = 0;
+            other.clear();
             return *this;
         }
 
